@@ -241,6 +241,10 @@ func playDevOn(c devIO, step string, d Dev, req *Event) (ended bool) {
 			"<a xmlns='" + NSSM + "' h='0'/>",
 			"<presence from='x@y/z'/>",
 			"<stream:features/>",
+			// IQs that are neither a result nor an error: a server-initiated ping, a roster push, no type at all
+			"<iq type='get' id='srv-ping' from='localhost'><ping xmlns='urn:xmpp:ping'/></iq>",
+			"<iq type='set' id='push-1' from='localhost'><query xmlns='jabber:iq:roster'><item jid='a@b'/></query></iq>",
+			"<iq id='typeless'/>",
 		}
 		alt := alts[d.Variant%len(alts)]
 		// never "unexpected" = the expected success reply of this step
